@@ -1,6 +1,127 @@
-import MotoModel.Model.Tape
-import MotoModel.Spec.K7
+/-
+  C08 — any well-formed third-party tape is read exactly; list and extract agree.
+-/
+import MotoModel.Proofs.TapeRead
 namespace Moto.C08
 open Moto Moto.Tape
-theorem placeholder : buildEmpty 255 = [255, 2, 0] := rfl
+
+theorem read_marker : Gen.Tape.readMarker = [1, 1, 1, 60, 90] := rfl
+
+theorem render_length_ge (bs : List Spec.K7.WBlock) : bs.length ≤ (bs.flatMap Spec.K7.renderBlock).length := by
+  induction bs with
+  | nil => simp
+  | cons b bs ih =>
+    simp only [List.flatMap_cons, List.length_append, List.length_cons]
+    have : 1 ≤ (Spec.K7.renderBlock b).length := by simp [Spec.K7.renderBlock, Spec.K7.frame]; omega
+    omega
+
+/-- **C08 (blocks)**: on any tape emitted by the independent writer — initial idle gap, leaders of
+    three or more 01, payloads of 0..254 bytes whatever they contain (length byte 0 = 256), idle
+    gaps of any length, any total length — the reader returns exactly the written blocks, in order. -/
+theorem read_blocks (pre : Bytes) (bs : List Spec.K7.WBlock) (hpre : 60 ∉ pre) (hwf : ∀ b ∈ bs, b.wf) :
+    readAll (Spec.K7.render pre bs) = bs.map (fun b => Spec.K7.frame b.ty b.payload) := by
+  unfold readAll Spec.K7.render
+  have := readAllFuel_render read_marker bs pre [] ((pre ++ bs.flatMap Spec.K7.renderBlock).length + 1)
+    hpre (by simp) hwf (by have := render_length_ge bs; simp only [List.length_append]; omega)
+  simpa using this
+
+/-- the same with arbitrary padding after the last block (zeros, or anything without 3C) -/
+theorem read_blocks_padded (pre tail : Bytes) (bs : List Spec.K7.WBlock) (hpre : 60 ∉ pre) (ht : 60 ∉ tail)
+    (hwf : ∀ b ∈ bs, b.wf) :
+    readAll (Spec.K7.render pre bs ++ tail) = bs.map (fun b => Spec.K7.frame b.ty b.payload) := by
+  unfold readAll Spec.K7.render
+  exact readAllFuel_render read_marker bs pre tail _ hpre ht hwf
+    (by have := render_length_ge bs; simp only [List.length_append]; omega)
+
+/-- payloads are opaque: a payload made of marker look-alikes is returned like any other -/
+example : readAll (Spec.K7.render [] [⟨3, 1, [1, 1, 1, 60, 90, 255, 2, 0], [1, 1]⟩, ⟨3, 255, [], []⟩])
+    = [Spec.K7.frame 1 [1, 1, 1, 60, 90, 255, 2, 0], Spec.K7.frame 255 []] := by decide
+
+/-- one step: when the extractor's step succeeds, the enumerator's step succeeds with the same
+    listener and the same report -/
+theorem step_agree (dir : Str) (s1 s2 : RState) (raw : Bytes) (hl : s1.l = s2.l) (ho : s1.out = s2.out)
+    (s2' : RState) (h : readStep true dir s2 raw = (s2', none)) :
+    ∃ s1', readStep false [] s1 raw = (s1', none) ∧ s1'.l = s2'.l ∧ s1'.out = s2'.out := by
+  unfold readStep at h ⊢
+  cases hb : blockType raw with
+  | invalid => simp [hb] at h
+  | leader =>
+    simp only [hb] at h ⊢
+    cases hd : descOfBlock raw with
+    | error e => simp [hd] at h
+    | ok d =>
+      simp only [hd] at h ⊢
+      cases h
+      exact ⟨_, rfl, by simp [hl], by simp [ho]⟩
+  | data =>
+    simp only [hb] at h ⊢
+    rw [hl]
+    cases hd : onDataBlock s2.l raw with
+    | error e => simp [hd] at h
+    | ok l' =>
+      simp only [hd] at h ⊢
+      cases h
+      exact ⟨_, rfl, rfl, ho⟩
+  | eof =>
+    simp only [hb, if_true] at h ⊢
+    simp only [Bool.false_eq_true, if_false]
+    rw [hl]
+    cases hdesc : s2.desc with
+    | none => simp [hdesc] at h
+    | some d =>
+      simp only [hdesc] at h
+      split at h
+      · simp at h
+      · split at h
+        · simp at h
+        · split at h
+          · simp at h
+          · cases he : onEndBlock s2.l with
+            | error e => simp [he] at h
+            | ok r =>
+              obtain ⟨line, l'⟩ := r
+              simp only [he] at h ⊢
+              cases h
+              exact ⟨_, rfl, rfl, by simp [ho]⟩
+
+/-- **C08 (list = extract)**: for every byte string offered as a tape, whenever extraction
+    completes, listing completes too and both print the same report (names, sizes, block counts,
+    block positions) — they fold the same listener over the same blocks. -/
+theorem list_extract_agree_blocks (dir : Str) (blocks : List Bytes) : ∀ (s1 s2 : RState), s1.l = s2.l → s1.out = s2.out →
+    ∀ s2', readLoop true dir s2 blocks = (.ret 0, s2') →
+    ∃ s1', readLoop false [] s1 blocks = (.ret 0, s1') ∧ s1'.out = s2'.out := by
+  induction blocks with
+  | nil => intro s1 s2 _ ho s2' h; simp [readLoop] at h ⊢; rw [← h]; exact ho
+  | cons raw rest ih =>
+    intro s1 s2 hl ho s2' h
+    simp only [readLoop] at h ⊢
+    cases hs : readStep true dir s2 raw with
+    | mk s2m err =>
+      cases err with
+      | some e => simp [hs] at h
+      | none =>
+        simp only [hs] at h
+        obtain ⟨s1m, e1, hl', ho'⟩ := step_agree dir s1 s2 raw hl ho s2m hs
+        simp only [e1]
+        exact ih s1m s2m hl' ho' s2' h
+
+theorem list_extract_agree_dir (verbose : Bool) (dir : Str) (tape : Bytes)
+    (h : (readLoop true dir { l := { verbose := verbose } } (readAll tape)).1 = .ret 0) :
+    (enumerate verbose tape).status = .ret 0 ∧
+    (enumerate verbose tape).out = (readLoop true dir { l := { verbose := verbose } } (readAll tape)).2.out := by
+  unfold enumerate
+  cases hx : readLoop true dir { l := { verbose := verbose } } (readAll tape) with
+  | mk st s2' =>
+    rw [hx] at h
+    simp only at h
+    subst h
+    obtain ⟨s1', e1, ho⟩ := list_extract_agree_blocks dir (readAll tape) { l := { verbose := verbose } }
+      { l := { verbose := verbose } } rfl rfl s2' hx
+    simp [e1, ho]
+
+theorem list_extract_agree (verbose : Bool) (archive : Str) (into : Option Str) (tape : Bytes)
+    (h : (extract verbose archive into tape).status = .ret 0) :
+    (enumerate verbose tape).status = .ret 0 ∧ (enumerate verbose tape).out = (extract verbose archive into tape).out := by
+  exact list_extract_agree_dir verbose (targetDirOf archive into) tape h
+
 end Moto.C08
